@@ -12,13 +12,10 @@ RULE = ("TLC walks of I_IPAM with cooldown 100 s, ticks of 70 s, sequence-number
 def run(ctx):
     design = [{"module": "MC_IPAM", "cfg": "MC_c21_quick.cfg", "thorough_cfg": "MC_c21.cfg", "workers": 4,
                "allow_zero": _ipam.ALLOW_ZERO, "timeout": 600, "thorough_timeout": 1700}]
-    _ipam.leg(ctx, BASE, "tlc-schedules", design=design,
-              gen={"module": "Gen_IPAM", "cfg": "Gen_sim_c21.cfg", "simulate": {"num": 100, "depth": 140},
-                   "thorough_simulate": {"num": 5000, "depth": 140}, "timeout": 600, "thorough_timeout": 1500},
-              nontrivial=_ipam.stale_or_cooldown, rule=RULE)
-    if ctx.violations:
-        return
-    _ipam.leg(ctx, BASE, "seeded-sequential", n_random=(50, 2500), mode="seq21", nontrivial=_ipam.stale_or_cooldown, rule=RULE)
+    _ipam.leg(ctx, BASE, "tlc-schedules+seeded-sequential", design=design,
+              gen={"module": "Gen_IPAM", "cfg": "Gen_sim_c21.cfg", "simulate": {"num": 60, "depth": 140},
+                   "thorough_simulate": {"num": 2000, "depth": 140}, "timeout": 600, "thorough_timeout": 1500},
+              n_random=(45, 1200), mode="seq21", nontrivial=_ipam.stale_or_cooldown, rule=RULE)
 
 
 def selftest(ctx):
